@@ -492,35 +492,47 @@ pub async fn run_behaviour(id: &Value, b: &Value) -> Vec<Value> {
 }
 
 pub fn run(args: &[String]) {
-    let behaviours = read_ndjson(&arg(args, "--behaviours").expect("--behaviours"));
+    use std::io::{BufRead, Write};
+    let bpath = arg(args, "--behaviours").expect("--behaviours");
     let out = arg(args, "--out").expect("--out");
     let override_unit = arg(args, "--unit").map(|s| s.parse::<u64>().unwrap());
     let override_vmap: Option<Vec<u64>> =
         arg(args, "--vmap").map(|s| s.split(',').map(|x| x.parse().unwrap()).collect());
-    let jobs: Vec<(usize, Value)> = behaviours.into_iter().enumerate().collect();
     // the clock hook is process-global: behaviours run one at a time per process; parallelism
-    // comes from running several processes (see --shard)
+    // comes from running several processes (see --shard).  The behaviours file is streamed: a shard
+    // parses only its own lines and writes the events of a behaviour as soon as it has run.
     let shard = arg(args, "--shard").map(|s| {
         let (a, b) = s.split_once('/').unwrap();
         (a.parse::<usize>().unwrap(), b.parse::<usize>().unwrap())
     });
     let rt = tokio::runtime::Builder::new_current_thread().enable_all().build().unwrap();
-    let mut rows = Vec::new();
-    let ov = Arc::new((override_unit, override_vmap));
-    for (i, mut b) in jobs {
+    let mut w = std::io::BufWriter::new(std::fs::File::create(&out).expect("create output"));
+    let f = std::io::BufReader::new(std::fs::File::open(&bpath).expect("open behaviours"));
+    let mut i = 0usize;
+    for line in f.lines() {
+        let line = line.expect("read behaviours");
+        if line.trim().is_empty() {
+            continue;
+        }
+        let idx = i;
+        i += 1;
         if let Some((k, n)) = shard {
-            if i % n != k {
+            if idx % n != k {
                 continue;
             }
         }
-        if let Some(un) = ov.0 {
+        let mut b: Value = serde_json::from_str(&line).expect("behaviour json");
+        if let Some(un) = override_unit {
             b["unit"] = json!(un);
         }
-        if let Some(vm) = &ov.1 {
+        if let Some(vm) = &override_vmap {
             b["vmap"] = json!(vm);
         }
-        let id = b.get("id").cloned().unwrap_or(json!(i));
-        rows.extend(rt.block_on(run_behaviour(&id, &b)));
+        let id = b.get("id").cloned().unwrap_or(json!(idx));
+        for r in rt.block_on(run_behaviour(&id, &b)) {
+            serde_json::to_writer(&mut w, &r).unwrap();
+            w.write_all(b"\n").unwrap();
+        }
     }
-    write_ndjson(&out, &rows);
+    w.flush().unwrap();
 }
